@@ -3,5 +3,5 @@ CONSTANTS
   W = 8
   Size = 6
   Buffered = TRUE
-INVARIANTS NoLostWakeup WindowSane
+INVARIANTS NoLostWakeup OneInside NoStuckQueue WindowSane
 CONSTRAINT Emit
